@@ -23,39 +23,9 @@ theorem dest_old_or_new_at_every_prefix (u : Nat) (fs : FS) (tmp dst : Path) (hn
     run u fs ((writeFile tmp dst N mode pieces fault).2.take k) dst = some (newFile mode u pieces) := by
   obtain ⟨ws, tl, hacts, hws, htl, _, hcommit⟩ := writeFile_shape tmp dst N mode pieces fault
   rw [hacts]
-  have hd : dst ≠ tmp := fun e => hne e.symm
-  have hcreate : dst ∉ targets (Act.createExcl tmp mode) := by simp [targets, hd]
-  have hwr := onlyWrites_targets tmp dst hd ws hws
-  have hfail : ∀ l : List Act, (∀ a ∈ l, dst ∉ targets a) → run u fs (l.take k) dst = fs dst :=
-    fun l hl => run_untouched u fs dst _ (fun a ha => hl a (List.mem_of_mem_take ha))
-  have hpre : ∀ x : List Act, (∀ a ∈ x, dst ∉ targets a) →
-      ∀ a ∈ [Act.createExcl tmp mode] ++ ws ++ x, dst ∉ targets a := by
-    intro x hx a ha
-    simp only [List.mem_append, List.mem_singleton] at ha
-    rcases ha with (rfl | ha) | ha
-    · exact hcreate
-    · exact hwr a ha
-    · exact hx a ha
-  cases htl with
-  | abort => left; apply hfail; apply hpre; intro a ha; simp at ha; rcases ha with rfl | rfl <;> simp [targets, hd]
-  | closeFail => left; apply hfail; apply hpre; intro a ha; simp at ha; rcases ha with rfl | rfl <;> simp [targets, hd]
-  | renameFail =>
-    left; apply hfail; apply hpre; intro a ha; simp at ha; rcases ha with rfl | rfl | rfl <;> simp [targets, hd]
-  | commit =>
-    have hws' := hcommit rfl
-    have hsplit : [Act.createExcl tmp mode] ++ ws ++ [Act.close tmp, Act.rename tmp dst] =
-        ([Act.createExcl tmp mode] ++ ws ++ [Act.close tmp]) ++ [Act.rename tmp dst] := by simp
-    rw [hsplit]
-    have hp := hpre [Act.close tmp] (by intro a ha; simp at ha; subst ha; simp [targets])
-    by_cases hk : k ≤ ([Act.createExcl tmp mode] ++ ws ++ [Act.close tmp]).length
-    · left
-      rw [List.take_append_of_le_length hk]
-      exact run_untouched u fs dst _ (fun a ha => hp a (List.mem_of_mem_take ha))
-    · right
-      rw [List.take_of_length_le (by simp at hk ⊢; omega)]
-      have htmp : run u fs ([Act.createExcl tmp mode] ++ ws ++ [Act.close tmp]) tmp = some (newFile mode u pieces) := by
-        rw [hws', before_rename_tmp, chunks_flatten]; rfl
-      rw [run_rename u fs _ tmp dst _ htmp, set_other _ _ _ _ hd, set_same]
+  have := shape_atomic u fs tmp dst hne mode ws tl (chunks N pieces) k hws htl hcommit
+  rw [chunks_flatten] at this
+  exact this
 
 /-- **rename comes after all bytes**: whenever the action sequence contains a rename, it is `rename tmp dst`, the
     temporary file holds the complete new content (with the final mode) at that moment, and the call just before
@@ -243,6 +213,68 @@ theorem close_without_commit (u : Nat) (fs : FS) (f : File) (hne : f.tmp ≠ f.d
 theorem closed_handle_inert (f : File) (hc : f.committed = false) (hcl : f.closed = true) (a b : Bool) :
     f.commit a b = (f, .invalid, []) ∧ f.close a = (f, .invalid, []) := by
   simp [File.commit, File.close, hc, hcl]
+
+/-- **every history of the safe.File API is all-or-nothing at every kill point**: for any sequence of
+    `Write` / `Commit` / `Close` / embedded `Close` calls after `CreateWithMode`, with any of their system calls
+    failing, after any prefix of the resulting actions the destination is what it was, or the history commits `p`
+    (its first `Commit`/`Close` is a `Commit` whose close and rename succeed; `p` = exactly the bytes written before
+    it) and the destination holds `p` with the requested mode less the umask -/
+theorem history_dest_old_or_new (u : Nat) (fs : FS) (tmp dst : Path) (hne : tmp ≠ dst) (mode : Nat) (ops : List Op)
+    (k : Nat) :
+    run u fs (((File.create tmp dst mode).2 ++ ((File.create tmp dst mode).1.steps ops).2).take k) dst = fs dst ∨
+    ∃ p, committed true ops = some p ∧
+      run u fs (((File.create tmp dst mode).2 ++ ((File.create tmp dst mode).1.steps ops).2).take k) dst =
+        some ⟨p, lessUmask mode u⟩ := by
+  have hd : dst ≠ tmp := fun e => hne e.symm
+  show run u fs (([Act.createExcl tmp mode] ++ ((openFile tmp dst).steps ops).2).take k) dst = fs dst ∨ _
+  rcases run_take_append u fs dst [Act.createExcl tmp mode] ((openFile tmp dst).steps ops).2 k
+    (by intro x hx; simp at hx; subst hx; simp [targets, hd]) with h | h
+  · exact Or.inl h
+  · have h0 : run u fs [Act.createExcl tmp mode] tmp = some ⟨[], lessUmask mode u⟩ := by
+      simp [run, applyAct, set_same]
+    have hdst : run u fs [Act.createExcl tmp mode] dst = fs dst :=
+      run_untouched u fs dst _ (by intro x hx; simp at hx; subst hx; simp [targets, hd])
+    rcases steps_atomic u tmp dst hne (lessUmask mode u) ops (openFile tmp dst) (run u fs [Act.createExcl tmp mode]) []
+      (k - [Act.createExcl tmp mode].length) rfl rfl rfl rfl h0 with h2 | ⟨p, hp, h2⟩
+    · left; rw [h, h2, hdst]
+    · right
+      refine ⟨p, hp, ?_⟩
+      show run u fs (([Act.createExcl tmp mode] ++ ((openFile tmp dst).steps ops).2).take k) dst = _
+      rw [h, h2]; simp
+
+/-- the handle is inert once closed: after `Commit` or `Close` no later call of the history issues a system call -/
+theorem history_after_close_silent (f : File) (hcl : f.closed = true) (hfd : f.fdOpen = false) (ops : List Op) :
+    (f.steps ops).2 = [] := steps_closed f hcl hfd ops
+
+/-- **the File API used directly** (`CreateWithMode`, one `Write` per piece, then `Commit`+`Close` or `Close` alone,
+    under any fault): old or new at every kill point -/
+theorem file_api_dest_old_or_new (u : Nat) (fs : FS) (tmp dst : Path) (hne : tmp ≠ dst) (mode : Nat)
+    (pieces : List Bytes) (doCommit : Bool) (fault : Fault) (k : Nat) :
+    run u fs ((fileRun tmp dst mode pieces doCommit fault).2.take k) dst = fs dst ∨
+    run u fs ((fileRun tmp dst mode pieces doCommit fault).2.take k) dst = some ⟨pieces.flatten, lessUmask mode u⟩ := by
+  obtain ⟨ws, tl, hacts, hws, htl, _, hcommit⟩ := fileRun_shape tmp dst mode pieces doCommit fault
+  rw [hacts]
+  exact shape_atomic u fs tmp dst hne mode ws tl pieces k hws htl hcommit
+
+/-- **Close without Commit, or any failure, through the File API**: destination untouched, no temporary file left -/
+theorem file_api_abort_or_failure_clean (u : Nat) (fs : FS) (tmp dst : Path) (hne : tmp ≠ dst) (mode : Nat)
+    (pieces : List Bytes) (doCommit : Bool) (fault : Fault)
+    (h : ¬ ((fileRun tmp dst mode pieces doCommit fault).1 = .ok ∧ doCommit = true)) :
+    run u fs (fileRun tmp dst mode pieces doCommit fault).2 dst = fs dst ∧
+    run u fs (fileRun tmp dst mode pieces doCommit fault).2 tmp = none := by
+  obtain ⟨ws, tl, hacts, hws, htl, hiff, _⟩ := fileRun_shape tmp dst mode pieces doCommit fault
+  rw [hacts]
+  exact shape_failure u fs tmp dst hne mode ws tl hws htl (fun e => h (hiff.mp e))
+
+/-- **successful Commit through the File API**: exactly the bytes written, requested mode less the umask -/
+theorem file_api_commit_result (u : Nat) (fs : FS) (tmp dst : Path) (hne : tmp ≠ dst) (mode : Nat)
+    (pieces : List Bytes) (fault : Fault) (h : (fileRun tmp dst mode pieces true fault).1 = .ok) :
+    run u fs (fileRun tmp dst mode pieces true fault).2 dst = some ⟨pieces.flatten, lessUmask mode u⟩ ∧
+    run u fs (fileRun tmp dst mode pieces true fault).2 tmp = none := by
+  obtain ⟨ws, tl, hacts, _, _, hiff, hcommit⟩ := fileRun_shape tmp dst mode pieces true fault
+  have htl := hiff.mpr ⟨h, rfl⟩
+  rw [hacts, htl, hcommit htl]
+  exact shape_commit u fs tmp dst hne mode pieces
 
 /-- **chunking**: the `write(2)` chunks bufio produces concatenate to exactly the bytes the callback wrote -/
 theorem chunks_concat (N : Nat) (pieces : List Bytes) : (chunks N pieces).flatten = pieces.flatten :=
